@@ -36,12 +36,12 @@ type c03FaultOp struct {
 	refused bool
 }
 
-var c03FaultPreload = []string{"a", "d/x", "d/y", "e/f/g", "top/only"}
+var c03FaultPreload = []string{"a", "d/x", "d/y", "e/f/g", "e/h/k", "top/only"}
 
 // every key the operations mention, and every directory name above them (never stored: if one of
 // them answers GET 200 or is listed, that is a leftover)
-var c03FaultUniverse = []string{"a", "d/x", "d/y", "e/f/g", "top/only", "n/m/k", "zflat", "c/c/copy", "mp/done", "f/form",
-	"d", "e", "e/f", "top", "n", "n/m", "c", "c/c", "mp", "f"}
+var c03FaultUniverse = []string{"a", "d/x", "d/y", "e/f/g", "e/h/k", "top/only", "n/m/k", "zflat", "c/c/copy", "mp/done", "f/form",
+	"d", "e", "e/f", "e/h", "top", "n", "n/m", "c", "c/c", "mp", "f"}
 
 func faultBody(tag string) []byte { return []byte(strings.Repeat(tag+"-", 700)) }
 
@@ -213,7 +213,7 @@ func c03FaultJudge(r *rep.Reporter, cc c03FaultCase, s *drv.Server, b string, re
 			r.Count("fault_with_bad_listing:"+cc.kind+","+trig, 1)
 		}
 	}()
-	prefixes := []string{"", "d/", "e/", "e/f/", "n/", "n/m/", "c/", "c/c/", "mp/", "f/", "top/", "z", "."}
+	prefixes := []string{"", "d/", "e/", "e/f/", "e/h/", "n/", "n/m/", "c/", "c/c/", "mp/", "f/", "top/", "z", "."}
 	for _, p := range prefixes {
 		for _, d := range []string{"", "/"} {
 			httpListCheck(r, s, b, live, p, d, false, wit)
